@@ -1040,14 +1040,123 @@ type lexTables struct {
 	pos        token.Pos
 }
 
-// lexerTables extracts the rune -> token table from LexScanner.ScanFunc's switch on r.Peek().
+// lexerRuneTable decides, for every candidate rune, which token LexScanner.ScanFunc returns when that rune is the
+// next one in plain mode (neither a symbol nor metadata is expected), by constant folding: the reader's Peek() is the
+// rune until something is consumed with Next(); every other reader call is unknown. A rune gets an entry only when the
+// function folds all the way to a constant token, so switch cases, a rune -> token table or an if-chain look alike.
+func (c *Ctx) lexerRuneTable(fn *ssa.Function) (map[rune]string, error) {
+	g, err := c.grammar()
+	if err != nil {
+		return nil, err
+	}
+	_, byVal := c.tokenConsts(g)
+	probes := map[rune]bool{'♯': true, '♭': true}
+	for r := rune(0x21); r < 0x7f; r++ {
+		probes[r] = true
+	}
+	// every integer constant and every key of a rune-keyed table the function mentions
+	for _, f := range withClosures(fn) {
+		allInstrs(f, func(in ssa.Instruction) {
+			for _, op := range in.Operands(nil) {
+				if k, ok := constInt(*op); ok && k > 0x20 && k < 0x110000 {
+					probes[rune(k)] = true
+				}
+				if g, ok := (*op).(*ssa.Global); ok {
+					if mv, ok := c.globalTable(g).cv.(*MapV); ok {
+						for _, e := range mv.Entries {
+							if k, ok := asInt(e.K); ok && k > 0x20 && k < 0x110000 {
+								probes[rune(k)] = true
+							}
+						}
+					}
+				}
+			}
+		})
+	}
+	boolT := types.Typ[types.Bool]
+	plain := &StructV{Fields: map[string]Val{
+		"expectSymbol":   &CVal{V: constant.MakeBool(false), T: boolT},
+		"expectMetadata": &CVal{V: constant.MakeBool(false), T: boolT},
+	}}
+	out := map[rune]string{}
+	for r := range probes {
+		f := c.newFolder()
+		consumed, peeked, run := false, false, false
+		f.invoke = func(call *ssa.Call, args []fval) (fval, bool) {
+			switch call.Call.Method.Name() {
+			case "Peek":
+				if !consumed {
+					peeked = true
+					return fval{k: constant.MakeInt64(int64(r)), t: types.Typ[types.Rune]}, true
+				}
+			case "Next":
+				if consumed {
+					run = true
+				}
+				consumed = true
+			default:
+				// DiscardWhile and friends after the rune has been looked at: a multi-rune token (number, symbol, ...)
+				if peeked {
+					run = true
+				}
+			}
+			return top, false
+		}
+		res, err := f.foldCall(fn, []fval{{cvptr: plain}, top})
+		if err != nil || res.k == nil || res.k.Kind() != constant.Int || run {
+			continue
+		}
+		v, _ := constant.Int64Val(res.k)
+		if name, ok := byVal[v]; ok {
+			out[r] = name
+		} else if v == -1 {
+			out[r] = "EOF"
+		} else {
+			out[r] = fmt.Sprintf("<%d>", v)
+		}
+	}
+	return out, nil
+}
+
+// lexerTables extracts the rune -> token table of LexScanner.ScanFunc (by folding, see lexerRuneTable; the switch on
+// r.Peek() is read syntactically only when folding yields nothing) and the run terminators.
 func (c *Ctx) lexerTables() (*lexTables, error) {
+	if c.lexTabs != nil || c.lexTabsErr != nil {
+		return c.lexTabs, c.lexTabsErr
+	}
+	lt, err := c.lexerTablesUncached()
+	c.lexTabs, c.lexTabsErr = lt, err
+	return lt, err
+}
+
+func (c *Ctx) lexerTablesUncached() (*lexTables, error) {
 	fd, p := c.astFunc("input/ast", "LexScanner.ScanFunc")
 	if fd == nil {
 		return nil, fmt.Errorf("input/ast.LexScanner.ScanFunc not found")
 	}
 	lt := &lexTables{runeToken: map[rune]string{}, casePos: map[rune]token.Pos{}, pos: fd.Pos()}
 	found := false
+	if sfn := c.fn("input/ast", "LexScanner.ScanFunc"); sfn != nil {
+		if tab, err := c.lexerRuneTable(sfn); err == nil && len(tab) > 0 {
+			found = true
+			for r, tok := range tab {
+				if tok == "EOF" {
+					continue
+				}
+				lt.runeToken[r] = tok
+				lt.casePos[r] = fd.Pos()
+			}
+		}
+	}
+	if !found {
+		c.lexTablesFromSwitch(fd, p, lt, &found)
+	}
+	return c.lexerExclusions(lt, found)
+}
+
+func (c *Ctx) lexTablesFromSwitch(fd *ast.FuncDecl, p *packages.Package, lt *lexTables, foundp *bool) {
+	found := false
+	defer func() { *foundp = found }()
 	ast.Inspect(fd.Body, func(n ast.Node) bool {
 		sw, ok := n.(*ast.SwitchStmt)
 		if !ok || sw.Tag == nil {
@@ -1093,8 +1202,11 @@ func (c *Ctx) lexerTables() (*lexTables, error) {
 		}
 		return false
 	})
+}
+
+func (c *Ctx) lexerExclusions(lt *lexTables, found bool) (*lexTables, error) {
 	if !found {
-		return nil, fmt.Errorf("switch on r.Peek() not found in ScanFunc")
+		return nil, fmt.Errorf("ScanFunc neither folds to single-rune tokens nor has a switch on r.Peek()")
 	}
 	// exclusion strings of the symbol / metadata predicates
 	for _, spec := range []struct {
